@@ -611,10 +611,24 @@ func strictEqualityComparison(x Value, y Value) bool {
 //	Array       -> []interface{}
 //	Object      -> map[string]interface{}
 func (v Value) Export() (interface{}, error) {
-	return v.export(), nil
+	var result interface{}
+	err := catchPanic(func() {
+		result = v.exportSeen(nil)
+	})
+	if err != nil {
+		return nil, err
+	}
+	return result, nil
 }
 
 func (v Value) export() interface{} {
+	return v.exportSeen(nil)
+}
+
+// exportSeen is export with the chain of objects being exported: an object
+// that contains itself cannot be represented and raises a TypeError (as
+// JSON.stringify does) instead of recursing without bound.
+func (v Value) exportSeen(seen []*object) interface{} {
 	switch v.kind {
 	case valueUndefined:
 		return nil
@@ -631,6 +645,12 @@ func (v Value) export() interface{} {
 		}
 	case valueObject:
 		obj := v.object()
+		for _, outer := range seen {
+			if outer == obj {
+				panic(obj.runtime.panicTypeError("Converting circular structure to a Go value"))
+			}
+		}
+		seen = append(seen, obj)
 		switch value := obj.value.(type) {
 		case *goStructObject:
 			return value.value.Interface()
@@ -655,7 +675,7 @@ func (v Value) export() interface{} {
 				if !obj.hasProperty(name) {
 					continue
 				}
-				value := obj.get(name).export()
+				value := obj.get(name).exportSeen(seen)
 
 				t = reflect.TypeOf(value)
 
@@ -702,7 +722,7 @@ func (v Value) export() interface{} {
 		obj.enumerate(false, func(name string) bool {
 			value := obj.get(name)
 			if value.IsDefined() {
-				result[name] = value.export()
+				result[name] = value.exportSeen(seen)
 			}
 			return true
 		})
